@@ -667,41 +667,55 @@ def renderDoc (name : β → Str) (ch : Choices) (cj : Option Json) (c : Ctx) (F
 section Write
 variable [DecidableEq β]
 
-/-- the expanded, flattened fallback: no context, one node object per quad -/
-def writeFlat (name : β → Str) (d : List (DQuad β)) : Json :=
-  .arr (d.map fun q =>
-    let s : Str := match q.t.s with
-      | .iri v => v
-      | .bnode b => bnodeId name b
-      | .lit _ _ _ => []
-    let o : Json := match q.t.o with
-      | .iri v => .obj [(kId, .str v)]
-      | .bnode b => .obj [(kId, .str (bnodeId name b))]
-      | .lit lex _ (some l) => .obj [(kValue, .str lex), (kLanguage, .str l)]
-      | .lit lex dt none => .obj [(kValue, .str lex), (kType, .str dt)]
-    let node : Json := .obj [(kId, .str s), (q.t.p, .arr [o])]
-    match q.g with
-    | none => node
-    | some (.iri v) => .obj [(kId, .str v), (kGraph, .arr [node])]
-    | some (.bnode b) => .obj [(kId, .str (bnodeId name b)), (kGraph, .arr [node])]
-    | some (.lit _ _ _) => node)
+/-- `@id` string of a subject or graph name in expanded form -/
+def flatId (name : β → Str) : Term β → Str
+  | .iri v => v
+  | .bnode b => bnodeId name b
+  | .lit _ _ _ => []
 
-/-- steps 1 and 2; `none` = gave up -/
-def tryWrite (name : β → Str) (d : List (DQuad β)) (ch : Choices) : Option (Json × Forest β) :=
-  let F := propose d ch
-  let F := if forestOK F d then F else trivialForest d
-  if !forestOK F d then none else
+/-- an object in expanded form: node reference or value object -/
+def flatObj (name : β → Str) : Term β → Json
+  | .iri v => .obj [(kId, .str v)]
+  | .bnode b => .obj [(kId, .str (bnodeId name b))]
+  | .lit lex _ (some l) => .obj [(kValue, .str lex), (kLanguage, .str l)]
+  | .lit lex dt none => .obj [(kValue, .str lex), (kType, .str dt)]
+
+/-- the node object for one triple -/
+def flatNode (name : β → Str) (t : Triple β) : Json :=
+  .obj [(kId, .str (flatId name t.s)), (t.p, .arr [flatObj name t.o])]
+
+/-- the top-level entry for one quad -/
+def flatEntry (name : β → Str) (q : DQuad β) : Json :=
+  match q.g with
+  | none => flatNode name q.t
+  | some g => .obj [(kId, .str (flatId name g)), (kGraph, .arr [flatNode name q.t])]
+
+/-- the expanded, flattened fallback: no context, one node object per quad -/
+def writeFlat (name : β → Str) (d : List (DQuad β)) : Json := .arr (d.map (flatEntry name))
+
+/-- step 1: the proposed forest if it validates, else the trivial one -/
+def chooseForest (d : List (DQuad β)) (ch : Choices) : Forest β :=
+  if forestOK (propose d ch) d then propose d ch else trivialForest d
+
+/-- step 2: with the inline context of the choices if it processes and the rendering validates, else
+    without context -/
+def renderWith (name : β → Str) (ch : Choices) (F : Forest β) : Option Json :=
   let c0 := Ctx.initial ch.mode11 ch.base
-  let withCtx : Option (Json × Forest β) :=
+  let withCtx : Option Json :=
     match ch.context with
     | none => none
     | some cj =>
       match processLocal c0 cj with
       | none => none
-      | some c => (renderDoc name ch (some cj) c F).map fun doc => (doc, F)
+      | some c => renderDoc name ch (some cj) c F
   match withCtx with
-  | some r => some r
-  | none => (renderDoc name ch none c0 F).map fun doc => (doc, F)
+  | some doc => some doc
+  | none => renderDoc name ch none c0 F
+
+/-- steps 1 and 2; `none` = gave up -/
+def tryWrite (name : β → Str) (d : List (DQuad β)) (ch : Choices) : Option (Json × Forest β) :=
+  if forestOK (chooseForest d ch) d then (renderWith name ch (chooseForest d ch)).map fun doc => (doc, chooseForest d ch)
+  else none
 
 def write (name : β → Str) (d : List (DQuad β)) (ch : Choices) : Json :=
   match tryWrite name d ch with
